@@ -17,7 +17,7 @@ func init() {
 
 var c12Ops = []string{"+", "-", "*", "/", "%", "^", "==", "!=", ">", ">=", "<", "<="}
 var c12SetOps = []string{"and", "or", "unless"}
-var c12Scalars = []float64{0, -2, 0.5, 3, 1, 2, 10, -0.5, 100}
+var c12Scalars = []float64{0, -2, 0.5, 3, 1, 2, 10, -0.5, 100, 12, 644}
 
 // genBinRecs: records tagged side=l|r|both, series label a (and sometimes b); one sample per
 // (side-visible series, step window); values include 0, negatives and fractions.
@@ -164,6 +164,9 @@ func runC12(r *vk.Run) {
 			env := &MEnv{Recs: recs, Msg: env0.Msg, UnwrapKeeps: env0.UnwrapKeeps, CmpFalse: env0.CmpFalse, CmpFalseBool: env0.CmpFalseBool}
 			left, right := MExpr(c12Leaf("l|both")), MExpr(c12Leaf("r|both"))
 			lit := &Lit{V: vk.Pick(rng, c12Scalars)}
+			if rng.Chance(1, 3) {
+				lit.Pad = rng.Range(1, 2) // 010 is ten
+			}
 			b := &BinOp{Op: cb.op, Bool: cb.bool_}
 			switch cb.shape {
 			case "vl":
